@@ -51,14 +51,18 @@ pub fn build(id: &str, tier: Tier, seed: u64, known: &[Known]) -> Option<Prop> {
     let ws: Vec<(bool, serde_json::Value)> = known.iter().filter(|k| k.property == id).filter_map(|k| k.witness.clone().map(|w| (k.is_known, w))).collect();
     if !ws.is_empty() && ws.iter().any(|(_, w)| Case::from_json(w).is_some()) {
         let n = ws.len();
+        let ws_prop = id.to_string();
         p.units.insert(
             0,
             Unit::new("witnesses", 1, &format!("{} witness / regression cases from KNOWN_FINDINGS.txt", n), move |ctx, _| {
+                let c15 = ctx.unit.starts_with("witnesses") && ws_prop == "C15";
+                ctx.panic_only = c15;
                 for (_, w) in ws.iter() {
                     if let Some(c) = Case::from_json(w) {
                         ctx.run(&c);
                     }
                 }
+                ctx.panic_only = false;
             }),
         );
     }
